@@ -53,6 +53,9 @@ extern void rt_opt_u8(COption_u8 *, int32_t, int64_t), rt_opt_u64(COption_u64 *,
 extern void rt_res_u64_u8(CResult_u64_u8 *, int32_t, int64_t), rt_res_e16_e3(CResult_e16_e3 *, int32_t, int64_t);
 extern int64_t rt_read_opt_u64(const COption_u64 *), rt_read_res_u64_u8(const CResult_u64_u8 *);
 
+extern size_t rt_feed_u8(Callback_u8, const int64_t *, size_t), rt_feed_u64(Callback_u64, const int64_t *, size_t), rt_feed_e3(Callback_e3, const int64_t *, size_t), rt_feed_e16(Callback_e16, const int64_t *, size_t);
+extern int32_t rt_adv_u8(CIterator_u8 *, int64_t *), rt_adv_u64(CIterator_u64 *, int64_t *), rt_adv_e3(CIterator_e3 *, int64_t *), rt_adv_e16(CIterator_e16 *, int64_t *);
+
 /* ---- plumbing ----------------------------------------------------------------------------------------------------- */
 #define MAXR 4096
 static int64_t rowbuf[MAXR][64]; static int rowlen[MAXR]; static int nrows;
@@ -244,6 +247,57 @@ static void k_sizes(void) {
   row_end();
 }
 
+/* ---- the reverse direction: values BUILT HERE through the published layout, used by Rust ------------------------------- */
+typedef struct { int64_t got[256]; size_t n; size_t stop; } CSink;
+typedef struct { const int64_t *sc; int len; int pos; } CScript;
+static int64_t e3v2(E3 x) { return (int64_t)x.b[0] | (int64_t)x.b[1] << 8 | (int64_t)x.b[2] << 16; }
+#define REV_FUNCS(S, T, VAL, MK) \
+  static bool c_cb_##S(void *ctx, T x) { CSink *s = ctx; if (s->n < 256) s->got[s->n] = VAL; s->n++; return s->n != s->stop; } \
+  static int32_t c_next_##S(void *st, T *out) { CScript *s = st; int64_t v = s->pos < s->len ? s->sc[s->pos] : -1; if (s->pos < s->len) s->pos++; \
+                                                 if (v >= 0) { *out = MK(v); return 0; } return 1; }
+static E3 mk_e3r(int64_t v) { E3 e; e.b[0] = (uint8_t)v; e.b[1] = (uint8_t)(v >> 8); e.b[2] = (uint8_t)(v >> 16); return e; }
+static E16 mk_e16r(int64_t v) { E16 e; e.a = v; e.b = ~v; return e; }
+REV_FUNCS(u8, uint8_t, (int64_t)x, (uint8_t))
+REV_FUNCS(u64, uint64_t, (int64_t)x, (uint64_t))
+REV_FUNCS(e3, E3, e3v2(x), mk_e3r)
+REV_FUNCS(e16, E16, (x.b == ~x.a ? x.a : -777), mk_e16r)
+
+static void k_cb_rev(int elem) {     /* kind 9, rows: stop items... -> Rust feeds the items into a callback built here; rows: count ; got ; not offered */
+  for (int r = 0; r < nrows; r++) {
+    int64_t *items = rowbuf[r] + 1; int n = rowlen[r] - 1; CSink sink; sink.n = 0; sink.stop = (size_t)rowbuf[r][0]; size_t cnt;
+    if (elem == 0) { Callback_u8 cb = { &sink, c_cb_u8 }; cnt = rt_feed_u8(cb, items, (size_t)n); }
+    else if (elem == 1) { Callback_u64 cb = { &sink, c_cb_u64 }; cnt = rt_feed_u64(cb, items, (size_t)n); }
+    else if (elem == 4) { Callback_e3 cb = { &sink, c_cb_e3 }; cnt = rt_feed_e3(cb, items, (size_t)n); }
+    else { Callback_e16 cb = { &sink, c_cb_e16 }; cnt = rt_feed_e16(cb, items, (size_t)n); }
+    /* monitor: called once per item in order until it returned false; the reported count is the number of calls */
+    size_t want = (sink.stop >= 1 && sink.stop <= (size_t)n) ? sink.stop : (size_t)n;
+    if (sink.n != want) fail("c_built_callback:_invoked_another_number_of_times_than_items_up_to_the_stop");
+    if (cnt != sink.n) fail("c_built_callback:_reported_count_differs_from_the_number_of_invocations");
+    for (size_t i = 0; i < sink.n && i < 256 && i < (size_t)n; i++) if (sink.got[i] != items[i]) { fail("c_built_callback:_item_arrived_altered_or_out_of_order"); break; }
+    row_begin(); row_put((int64_t)cnt); row_end();
+    row_begin(); for (size_t i = 0; i < sink.n && i < 256; i++) row_put(sink.got[i]); row_end();
+    row_begin(); for (int i = (int)cnt; i < n; i++) row_put(items[i]); row_end();
+  }
+}
+static void k_it_rev(int elem) {     /* kind 10, rows: n script... -> Rust calls Iterator::next n times on an iterator built here; '1 v' / '0 0' per call */
+  for (int r = 0; r < nrows; r++) {
+    int nops = (int)rowbuf[r][0]; CScript sc = { rowbuf[r] + 1, rowlen[r] - 1, 0 };
+    row_begin();
+    for (int k = 0; k < nops; k++) {
+      int64_t out = 0; int32_t rc;
+      int64_t want = k < sc.len ? sc.sc[k] : -1;
+      if (elem == 0) { static CIterator_u8 it; if (k == 0) { it.iter = &sc; it.func = c_next_u8; } rc = rt_adv_u8(&it, &out); }
+      else if (elem == 1) { static CIterator_u64 it; if (k == 0) { it.iter = &sc; it.func = c_next_u64; } rc = rt_adv_u64(&it, &out); }
+      else if (elem == 4) { static CIterator_e3 it; if (k == 0) { it.iter = &sc; it.func = c_next_e3; } rc = rt_adv_e3(&it, &out); }
+      else { static CIterator_e16 it; if (k == 0) { it.iter = &sc; it.func = c_next_e16; } rc = rt_adv_e16(&it, &out); }
+      if (want >= 0 && (rc != 1 || out != want)) fail("c_built_iterator:_rust_did_not_receive_the_item_the_next_function_delivered_(0_=_item)");
+      if (want < 0 && rc != 0) fail("c_built_iterator:_rust_saw_an_item_although_the_next_function_reported_the_end");
+      if (rc == 1) { row_put(1); row_put(out); } else { row_put(0); row_put(0); }
+    }
+    row_end();
+  }
+}
+
 int main(void) {
   static char line[1 << 20];
   while (fgets(line, sizeof line, stdin)) {
@@ -257,7 +311,7 @@ int main(void) {
     fails[0] = 0; first_row = 1; { static int64_t d[4096]; rt_take_drops(d, 4096); }
     switch (kind) {
       case 1: k_box(); break; case 2: k_arc(); break; case 3: k_vec((int)elem); break; case 4: k_cb((int)elem); break;
-      case 5: k_it((int)elem); break; case 6: k_slice((int)elem); break; case 7: k_tags(); break; case 8: k_sizes(); break;
+      case 5: k_it((int)elem); break; case 6: k_slice((int)elem); break; case 7: k_tags(); break; case 8: k_sizes(); break; case 9: k_cb_rev((int)elem); break; case 10: k_it_rev((int)elem); break;
       default: row_begin(); row_put(-3); row_end();
     }
     printf(" # fails=%s\n", fails[0] ? fails : "-");
